@@ -40,6 +40,9 @@ type Profile struct {
 	NoFold                                                  bool // do not use case-folding collections
 	NoLowerOverwrite                                        bool // never overwrite a key with a lower priority (C13 heap order)
 	DistinctPrio                                            bool
+	MjsonBeforeFlush                                        bool // one Flush in three is preceded by Collection.MarshalJSON() on one of the store's collections
+	TinyIncr                                                int  // percent of histories that begin with a tiny store grown by several small flushes, re-opened and mutated cold
+	HugeVals                                                bool // about one value in 60 is 64 KiB or 128 KiB long, give or take a byte
 	CacheOps                                                int // weight of a composite step: `cstate` then 3-8 of cget/cmin/cmax/cevict (Model L: exact answers, reads and cache transitions)
 	Cfg                                                     func(r *rand.Rand) int
 }
@@ -118,7 +121,11 @@ func (g *Gen) val() []byte {
 		return framedRecord(int64(7+r.Intn(3)), []byte(`{"inner":{"o":0,"l":0}}`))
 	default:
 		n := 20 + r.Intn(60)
-		if g.p.BigVals {
+		if g.p.HugeVals && r.Intn(4) == 0 {
+			// a value whose length is at, just below or just above a multiple of 64 KiB (the sizes at
+			// which anything that moves a value in pieces has its last, full or empty, piece)
+			n = (1+r.Intn(2))<<16 + []int{-1, 0, 0, 0, 1}[r.Intn(5)]
+		} else if g.p.BigVals {
 			switch r.Intn(4) {
 			case 0:
 				n = 1000 + r.Intn(3000)
@@ -285,10 +292,64 @@ func (g *Gen) history() []string {
 		g.emit("open %d %d", main.sid, main.fid)
 	}
 	g.stores[main.sid] = main
+	tiny := !main.mem && r.Intn(100) < g.p.TinyIncr
 	for i := 0; i < 1+r.Intn(len(g.namePool)); i++ {
+		if tiny && i > 0 {
+			break
+		}
 		n := g.namePool[i]
 		g.emit("setcoll %d %s", main.sid, hx([]byte(n)))
 		main.names[n] = true
+	}
+	if tiny {
+		// a tiny store (one collection) grown by several flushes of one or two tiny items each;
+		// then, for every key it holds: re-opened (whatever was not flushed is gone, every node is
+		// unloaded again) and mutated cold at that key.  Nodes whose children were persisted by
+		// DIFFERENT flushes, with records only a few dozen bytes apart, are loaded for the first
+		// time by a Delete / SetItem of their own key.
+		var ns []string
+		for n := range main.names {
+			ns = append(ns, n)
+		}
+		sort.Strings(ns)
+		nm := ns[0]
+		hn := hx([]byte(nm))
+		var keys [][]byte
+		seen := map[byte]bool{}
+		for round, m := 0, 2+r.Intn(3); round < m; round++ {
+			for i, c := 0, 1+r.Intn(2); i < c; i++ {
+				k := []byte{byte('a' + r.Intn(8))}
+				v := []byte(fmt.Sprintf("%02d", r.Intn(100)))[:r.Intn(3)]
+				if !seen[k[0]] {
+					seen[k[0]] = true
+					keys = append(keys, k)
+				}
+				g.emit("set %d %s %s %s %d", main.sid, hn, hx(k), hx(v), g.prio(nm, k))
+			}
+			g.emit("flush %d", main.sid)
+		}
+		main.durable = map[string]bool{}
+		for n := range main.names {
+			main.durable[n] = true
+		}
+		for _, k := range keys {
+			g.emit("close %d", main.sid)
+			delete(g.stores, main.sid)
+			ns2 := &gstore{sid: g.nextSid, fid: main.fid, names: map[string]bool{}, durable: main.durable}
+			g.nextSid++
+			for n := range main.durable {
+				ns2.names[n] = true
+			}
+			g.stores[ns2.sid] = ns2
+			g.emit("open %d %d", ns2.sid, ns2.fid)
+			g.installCmps(ns2)
+			main = ns2
+			if r.Intn(2) == 0 {
+				g.emit("del %d %s %s", main.sid, hn, hx(k))
+			} else {
+				g.emit("set %d %s %s %s %d", main.sid, hn, hx(k), hx([]byte{'z'}), g.prio(nm, k))
+			}
+		}
 	}
 	for x := 1; x < g.p.Stores; x++ {
 		o := &gstore{sid: g.nextSid, names: map[string]bool{}}
@@ -375,6 +436,11 @@ func (g *Gen) history() []string {
 		{p.Flush, func() {
 			s := g.pickStore(r.Intn(20) > 0)
 			if s != nil {
+				if p.MjsonBeforeFlush && r.Intn(3) == 0 {
+					// the public Collection.MarshalJSON() (what json.Marshal(coll) calls) on a collection
+					// that may be dirty, right before the Flush that will marshal it again
+					g.emit("mjson %d %s", s.sid, hx([]byte(g.pickName(s, true))))
+				}
 				g.emit("flush %d", s.sid)
 				if !s.ro && !s.mem {
 					s.durable = map[string]bool{}
@@ -614,7 +680,17 @@ func (g *Gen) history() []string {
 			hn := hx([]byte(g.pickName(s, true)))
 			g.emit("cstate %d %s", s.sid, hn)
 			for i, m := 0, 3+r.Intn(6); i < m; i++ {
-				switch r.Intn(8) {
+				switch r.Intn(10) {
+				case 8, 9:
+					var tgt []byte
+					if r.Intn(3) > 0 {
+						tgt = g.key()
+					}
+					stop := 0
+					if r.Intn(2) == 0 {
+						stop = 1 + r.Intn(6)
+					}
+					g.emit("cvisit %d %s %s %s %d %d", s.sid, hn, []string{"asc", "desc"}[r.Intn(2)], hx(tgt), r.Intn(2), stop)
 				case 0, 1, 2, 3:
 					g.emit("cget %d %s %s %d", s.sid, hn, hx(g.key()), r.Intn(2))
 				case 4:
